@@ -391,10 +391,17 @@ fn run_announcer(c: &ACase, rep: &mut Option<&mut Reporter>) -> (Vec<Finding>, V
                     }
                 };
                 let expect = view.expect(&s, false);
-                let cause = || {
+                // why a success that the shadow does not support was reported (signature component)
+                let cause = |reported_synced: usize| {
                     let mut with_local = s.clone();
                     with_local.insert(local);
-                    if fed_local && view.met(&with_local, false, view.strict_bound()) { "local-node-counted" } else { "unexplained" }
+                    if fed_local && reported_synced == s.len() + 1 && view.met(&with_local, false, view.strict_bound()) {
+                        "local-node-counted"
+                    } else if !view.preferred.is_subset(&s) {
+                        "preferred-seed-not-synced"
+                    } else {
+                        "replica-count-below-bound"
+                    }
                 };
                 match r {
                     ControlFlow::Break(success) => {
@@ -402,7 +409,7 @@ fn run_announcer(c: &ACase, rep: &mut Option<&mut Reporter>) -> (Vec<Finding>, V
                         told_success = true;
                         let (announce::SuccessfulOutcome::MinReplicationFactor { preferred, synced }
                         | announce::SuccessfulOutcome::MaxReplicationFactor { preferred, synced }) = success.outcome();
-                        decide(rep, &mut findings, "announcer", "synced_with", true, expect, cause, json!({"node": nm(&n), "outcome": format!("{:?}", success.outcome()), "distinct_non_local_synced": s.len()}));
+                        decide(rep, &mut findings, "announcer", "synced_with", true, expect, || cause(synced), json!({"node": nm(&n), "outcome": format!("{:?}", success.outcome()), "distinct_non_local_synced": s.len()}));
                         check_counts(rep, &mut findings, "success-outcome", synced, preferred, &s, fed_local);
                         check_map(&mut findings, "success", success.synced());
                         cnt(rep, &format!("announcer.success.{}", if matches!(success.outcome(), announce::SuccessfulOutcome::MinReplicationFactor { .. }) { "MinReplicationFactor" } else { "MaxReplicationFactor" }));
@@ -411,7 +418,7 @@ fn run_announcer(c: &ACase, rep: &mut Option<&mut Reporter>) -> (Vec<Finding>, V
                         tr.push(format!("synced_with({}) -> Continue(preferred: {}, synced: {}, unsynced: {})", nm(&n), p.preferred(), p.synced(), p.unsynced()));
                         // `synced_with` documents "target reached => Break(Success), otherwise Continue(Progress)"
                         let at = if n == local { "synced_with-local-node" } else { "synced_with" };
-                        decide(rep, &mut findings, "announcer", at, false, expect, cause, json!({"node": nm(&n), "distinct_non_local_synced": s.len()}));
+                        decide(rep, &mut findings, "announcer", at, false, expect, || "n/a", json!({"node": nm(&n), "distinct_non_local_synced": s.len()}));
                         check_counts(rep, &mut findings, "progress", p.synced(), p.preferred(), &s, fed_local);
                     }
                 }
@@ -453,7 +460,7 @@ fn run_announcer(c: &ACase, rep: &mut Option<&mut Reporter>) -> (Vec<Finding>, V
                         cnt(rep, "obs.announcer.NoNodes-after-an-ignored-Break(Success)");
                     } else {
                         let expect = view.expect(&s, true);
-                        decide(rep, &mut findings, "announcer", "can_continue-no-nodes", false, expect, || "unexplained", json!({"distinct_non_local_synced": s.len()}));
+                        decide(rep, &mut findings, "announcer", "can_continue-no-nodes", false, expect, || "n/a", json!({"distinct_non_local_synced": s.len()}));
                     }
                     cnt(rep, "announcer.result.NoNodes");
                     return (findings, tr, results >= 2);
@@ -468,10 +475,17 @@ fn run_announcer(c: &ACase, rep: &mut Option<&mut Reporter>) -> (Vec<Finding>, V
                     }
                 };
                 let expect = view.expect(&s, true);
-                let cause = || {
+                // why a success that the shadow does not support was reported (signature component)
+                let cause = |reported_synced: usize| {
                     let mut with_local = s.clone();
                     with_local.insert(local);
-                    if fed_local && view.met(&with_local, false, view.strict_bound()) { "local-node-counted" } else { "unexplained" }
+                    if fed_local && reported_synced == s.len() + 1 && view.met(&with_local, false, view.strict_bound()) {
+                        "local-node-counted"
+                    } else if !view.preferred.is_subset(&s) {
+                        "preferred-seed-not-synced"
+                    } else {
+                        "replica-count-below-bound"
+                    }
                 };
                 check_map(&mut findings, "result", r.synced());
                 match &r {
@@ -479,13 +493,13 @@ fn run_announcer(c: &ACase, rep: &mut Option<&mut Reporter>) -> (Vec<Finding>, V
                         tr.push(format!("timed_out() -> Success({:?})", success.outcome()));
                         let (announce::SuccessfulOutcome::MinReplicationFactor { preferred, synced }
                         | announce::SuccessfulOutcome::MaxReplicationFactor { preferred, synced }) = success.outcome();
-                        decide(rep, &mut findings, "announcer", "timed_out", true, expect, cause, json!({"outcome": format!("{:?}", success.outcome()), "distinct_non_local_synced": s.len()}));
+                        decide(rep, &mut findings, "announcer", "timed_out", true, expect, || cause(synced), json!({"outcome": format!("{:?}", success.outcome()), "distinct_non_local_synced": s.len()}));
                         check_counts(rep, &mut findings, "success-outcome", synced, preferred, &s, fed_local);
                         cnt(rep, "announcer.result.Success");
                     }
                     AnnouncerResult::TimedOut(t) => {
                         tr.push(format!("timed_out() -> TimedOut(synced: {}, timed_out: {})", t.synced().len(), t.timed_out().len()));
-                        decide(rep, &mut findings, "announcer", "timed_out", false, expect, cause, json!({"distinct_non_local_synced": s.len()}));
+                        decide(rep, &mut findings, "announcer", "timed_out", false, expect, || "n/a", json!({"distinct_non_local_synced": s.len()}));
                         if t.timed_out().contains(&local) {
                             findings.push(Finding { sig: "C25/announcer/local-node-handed-out/timed-out-set".into(), detail: json!({}) });
                         }
@@ -493,7 +507,7 @@ fn run_announcer(c: &ACase, rep: &mut Option<&mut Reporter>) -> (Vec<Finding>, V
                     }
                     AnnouncerResult::NoNodes(_) => {
                         tr.push("timed_out() -> NoNodes".into());
-                        decide(rep, &mut findings, "announcer", "timed_out", false, expect, cause, json!({"distinct_non_local_synced": s.len()}));
+                        decide(rep, &mut findings, "announcer", "timed_out", false, expect, || "n/a", json!({"distinct_non_local_synced": s.len()}));
                     }
                 }
                 return (findings, tr, results >= 2);
@@ -572,8 +586,10 @@ impl FShadow {
         let mut seen = BTreeSet::new();
         self.results.iter().filter(|(n, ok)| *ok && *n != self.local).any(|(n, _)| !seen.insert(*n))
     }
-    /// Which miscount explains a success that the distinct-non-local bookkeeping does not support.
-    fn cause(&self, view: &View) -> &'static str {
+    /// Which miscount explains a success that the distinct-non-local bookkeeping does not support
+    /// (signature component). A hypothesis is accepted only if it also reproduces the counts the
+    /// machine reported.
+    fn cause(&self, view: &View, reported: &fetch::Progress) -> &'static str {
         let bound = view.strict_bound();
         // the target-met test over successful results, counting results for the local node or not, and
         // every occurrence of a non-local node or only the first
@@ -592,7 +608,9 @@ impl FShadow {
                     }
                 }
             }
-            (!view.preferred.is_empty() && pref >= view.preferred.len()) || total >= bound
+            total == reported.succeeded()
+                && pref == reported.preferred()
+                && ((!view.preferred.is_empty() && pref >= view.preferred.len()) || total >= bound)
         };
         if self.local_succeeded() && explains(true, false) {
             "local-node-counted"
@@ -601,7 +619,7 @@ impl FShadow {
         } else if self.local_succeeded() && self.repeated_success() && explains(true, true) {
             "local-and-repeated-nodes-counted"
         } else {
-            "unexplained"
+            "neither-preferred-seeds-nor-replica-count-reached"
         }
     }
 }
@@ -701,7 +719,7 @@ fn run_fetcher(c: &FCase, rep: &mut Option<&mut Reporter>) -> (Vec<Finding>, Vec
         match r {
             ControlFlow::Break(success) => {
                 tr.push(format!("fetch_complete({}, {}) -> Break({:?})", name(&nodes, local, &n), if ok { "Success" } else { "Failed" }, success.outcome()));
-                decide(rep, findings, "fetcher", "fetch_complete", true, expect, || sh.cause(&view), json!({"node": name(&nodes, local, &n), "outcome": format!("{:?}", success.outcome()), "distinct_non_local_succeeded": s.len()}));
+                decide(rep, findings, "fetcher", "fetch_complete", true, expect, || sh.cause(&view, &success.progress()), json!({"node": name(&nodes, local, &n), "outcome": format!("{:?}", success.outcome()), "distinct_non_local_succeeded": s.len()}));
                 check_progress(rep, findings, sh, "progress", &success.progress());
                 cnt(rep, &format!("fetcher.success.{}", match success.outcome() {
                     fetch::SuccessfulOutcome::PreferredNodes { .. } => "PreferredNodes",
@@ -711,7 +729,7 @@ fn run_fetcher(c: &FCase, rep: &mut Option<&mut Reporter>) -> (Vec<Finding>, Vec
             }
             ControlFlow::Continue(p) => {
                 tr.push(format!("fetch_complete({}, {}) -> Continue(succeeded: {}, preferred: {}, failed: {})", name(&nodes, local, &n), if ok { "Success" } else { "Failed" }, p.succeeded(), p.preferred(), p.failed()));
-                decide(rep, findings, "fetcher", "fetch_complete", false, expect, || sh.cause(&view), json!({"node": name(&nodes, local, &n), "distinct_non_local_succeeded": s.len()}));
+                decide(rep, findings, "fetcher", "fetch_complete", false, expect, || "n/a", json!({"node": name(&nodes, local, &n), "distinct_non_local_succeeded": s.len()}));
                 check_progress(rep, findings, sh, "progress", &p);
             }
         }
@@ -830,13 +848,13 @@ fn run_fetcher(c: &FCase, rep: &mut Option<&mut Reporter>) -> (Vec<Finding>, Vec
                 match &r {
                     FetcherResult::TargetReached(success) => {
                         tr.push(format!("finish() -> TargetReached({:?})", success.outcome()));
-                        decide(rep, &mut findings, "fetcher", "finish", true, expect, || sh.cause(&view), json!({"outcome": format!("{:?}", success.outcome()), "distinct_non_local_succeeded": s.len()}));
+                        decide(rep, &mut findings, "fetcher", "finish", true, expect, || sh.cause(&view, &success.progress()), json!({"outcome": format!("{:?}", success.outcome()), "distinct_non_local_succeeded": s.len()}));
                         check_progress(rep, &mut findings, &sh, "progress", &success.progress());
                         cnt(rep, "fetcher.result.TargetReached");
                     }
                     FetcherResult::TargetError(missed) => {
                         tr.push(format!("finish() -> TargetError(required: {}, missed: {})", missed.required_nodes(), missed.missed_nodes().len()));
-                        decide(rep, &mut findings, "fetcher", "finish", false, expect, || sh.cause(&view), json!({"distinct_non_local_succeeded": s.len()}));
+                        decide(rep, &mut findings, "fetcher", "finish", false, expect, || "n/a", json!({"distinct_non_local_succeeded": s.len()}));
                         cnt(rep, "fetcher.result.TargetError");
                     }
                 }
